@@ -118,16 +118,9 @@ fn accept<const L: usize>() {
 }
 
 #[kani::proof]
-#[kani::unwind(19)]
-#[kani::stub(core::str::from_utf8, verif_oracle::from_utf8_model)]
-fn c13_accept() {
-    accept::<17>();
-}
-
-#[kani::proof]
 #[kani::unwind(26)]
 #[kani::stub(core::str::from_utf8, verif_oracle::from_utf8_model)]
-fn c13_accept_24() {
+fn c13_accept() {
     accept::<24>();
 }
 
